@@ -151,6 +151,32 @@ Combined Scheme spelled_mutind from spelled_mind, spelled_items_mind, spelled_fi
 Definition natural (s : schema) (t : ity) (j : json) : Prop := exists l, spelled s t j l.
 
 (* ---- the mistakes the property lists (variable route) ---- *)
+
+(* A JSON value that is not of the natural kind for the scalar: the property's
+   "structurally wrong" at a scalar position, in full. *)
+Definition scalar_kind_foreign (k : scalar_kind) (j : json) : Prop :=
+  match k, j with
+  | KInt, (JBool _ | JStr _ | JList _ | JObj _) => True
+  | KFloat, (JBool _ | JStr _ | JList _ | JObj _) => True
+  | KString, (JBool _ | JInt _ | JFloat _ | JList _ | JObj _) => True
+  | KID, (JBool _ | JFloat _ | JList _ | JObj _) => True
+  | KBoolean, (JInt _ | JFloat _ | JStr _ | JList _ | JObj _) => True
+  | KTag, (JBool _ | JInt _ | JFloat _ | JList _ | JObj _) => True
+  | _, _ => False
+  end.
+
+(* The two acceptances of foreign kinds that py-gql's own tests pin (open
+   findings numeric-string-for-number and number-for-string): a string for
+   Int / Float, a number for String. Decidable; everything the theorems say
+   about rejection is guarded by exactly the complement of this predicate. *)
+Definition lenient_scalar_case (k : scalar_kind) (j : json) : bool :=
+  match k, j with
+  | (KInt | KFloat), JStr _ => true
+  | KString, (JInt _ | JFloat _) => true
+  | _, _ => false
+  end.
+
+(* = scalar_kind_foreign minus lenient_scalar_case (CoerceProofs.mismatch_exact) *)
 Definition scalar_kind_mismatch (k : scalar_kind) (j : json) : Prop :=
   match k, j with
   | KInt, (JBool _ | JList _ | JObj _) => True
@@ -165,7 +191,8 @@ Definition scalar_kind_mismatch (k : scalar_kind) (j : json) : Prop :=
 Inductive wrong (s : schema) : ity -> json -> Prop :=
 | W_null t : ity_nn t = true -> wrong s t JNull                       (* null for non-null *)
 | W_kind nn n k j :                                                  (* structurally wrong scalar *)
-    alookup n s = Some (TDScalar k) -> scalar_kind_mismatch k j -> wrong s (INamed nn n) j
+    alookup n s = Some (TDScalar k) -> scalar_kind_foreign k j -> lenient_scalar_case k j = false ->
+    wrong s (INamed nn n) j
 | W_range nn n z :                                                   (* outside 32 bits *)
     alookup n s = Some (TDScalar KInt) -> in_int32 z = false -> wrong s (INamed nn n) (JInt z)
 | W_enum_name nn n vals nm :                                         (* unknown enum name *)
@@ -260,18 +287,3 @@ Definition usage_ok (s : schema) (vds : list var_def) (defs : list ifield) (call
 Definition bound (s : schema) (t : ity) : Prop := alookup (ity_name t) s <> None.
 Definition schema_closed (s : schema) : Prop :=
   forall n fs f, alookup n s = Some (TDInput fs) -> In f fs -> bound s (f_ty f).
-
-(* ---- the full demand on scalar kinds: a JSON value that is not of the
-   natural kind for the scalar. [scalar_kind_mismatch] above is this minus the
-   two leniencies pinned by py-gql's tests (numeric strings for Int / Float,
-   numbers for String) and minus integral floats for Int. ---- *)
-Definition scalar_kind_foreign (k : scalar_kind) (j : json) : Prop :=
-  match k, j with
-  | KInt, (JBool _ | JStr _ | JList _ | JObj _) => True
-  | KFloat, (JBool _ | JStr _ | JList _ | JObj _) => True
-  | KString, (JBool _ | JInt _ | JFloat _ | JList _ | JObj _) => True
-  | KID, (JBool _ | JFloat _ | JList _ | JObj _) => True
-  | KBoolean, (JInt _ | JFloat _ | JStr _ | JList _ | JObj _) => True
-  | KTag, (JBool _ | JInt _ | JFloat _ | JList _ | JObj _) => True
-  | _, _ => False
-  end.
